@@ -265,7 +265,7 @@ class HTMLSerializer(object):
         for token in treewalker:
             type = token["type"]
             if type == "Doctype":
-                doctype = "<!DOCTYPE %s" % token["name"]
+                doctype = "<!DOCTYPE %s" % (token["name"] or "")
 
                 if token["publicId"]:
                     doctype += ' PUBLIC "%s"' % token["publicId"]
